@@ -396,6 +396,12 @@ def c04_cleanup(ctx):
         last = h.body[-1]
         ctx.check(isinstance(last, ast.Raise) and last.exc is None, h, "BaseException handler re-raises the same exception (bare raise)",
                   "BaseException handler does not re-raise the task's exception unchanged")
+    # the first dispatch happens INSIDE the protected block: a fault noticed while submitting (a worker found dead by
+    # submit(), a failing input iterator, a pickling error) must run the same abort / reset as a fault noticed later
+    st_ = [c for c in calls_in(f) if call_name(c) == "self._start"]
+    ctx.check(bool(st_) and all(in_block(c, tr.body) for c in st_), st_[0] if st_ else f, "the initial dispatch (self._start) runs inside the try whose handlers abort and whose finally resets the run state",
+              "self._start(...) runs outside the try/finally of _get_outputs: an exception raised while dispatching the first batches skips the abort, the re-arming of the backend and `_running = False` - "
+              "every later call on this Parallel object fails with 'already running'")
     fin = ast.Module(body=tr.finalbody, type_ignores=[])
     for attr, ctor in (("self._jobs", ("collections.deque", "deque")), ("self._jobs_set", ("set",))):
         a = [s for s in tr.finalbody if isinstance(s, ast.Assign) and attr in stores_to(s)]
@@ -470,8 +476,16 @@ def c04_cleanup(ctx):
         fn = F(ctx, q, BK)
         gg = cfg_of(fn)
         t_ = list(calls_in(fn, term_name))
-        ctx.check(bool(t_) and gg.every_path_from([gg.entry], gg.nodes_of_all(t_)), t_[0] if t_ else fn,
-                  "%s terminates the workers on every path" % q)
+        always = bool(t_) and gg.every_path_from([gg.entry], gg.nodes_of_all(t_))
+        # equivalent split: terminate only when the backend must be made ready again (ensure_ready = the backend is
+        # managed by a `with` block), provided an unmanaged backend is terminated by _terminate_and_reset in the finally
+        # of the call (decided above: backend.terminate() iff not managed) - each call ends with no stray workers either way
+        from ..core import cond_facts
+        under_ready = bool(t_) and all([x for x in cond_facts(gg.conditions_at(gg.nodes_of(c_))) if "ensure_ready" in x[0]] == [("ensure_ready", True)] for c_ in t_)
+        finally_covers = bool(term) and all(any(unparse(t__) == "not self._managed_backend" and pol or unparse(t__) == "self._managed_backend" and not pol for (_, t__, pol) in g2.conditions_at(g2.nodes_of(c_))) for c_ in term)
+        ctx.check(always or (under_ready and finally_covers), t_[0] if t_ else fn,
+                  "%s terminates the workers on every path" % q if always else "%s terminates the workers of a managed backend; an unmanaged one is terminated by _terminate_and_reset" % q,
+                  "%s does not terminate the workers on every path" % q)
         if q.startswith("Loky") and t_:
             kv = kwarg(t_[0], "kill_workers")
             ctx.check(kv is not None and is_const(kv, True), t_[0], "loky workers are killed on abort (kill_workers=True)")
@@ -1581,9 +1595,28 @@ def c16_genexit(ctx):
         same = {(t_, not v_) for (t_, v_) in foreign}
         def thread_facts(node):
             return {x for x in cond_facts([c_ for c_ in g.conditions_at(g.nodes_of(node)) if isinstance(c_[0], ast.If) and in_block(c_[0], h.body)]) if "get_ident" in x[0]}
-        for c in starts + det:
+        for c in starts:
             ctx.check(bool(thread_facts(c) & foreign) and not (thread_facts(c) & same), c, "the detached path is taken exactly when the generator is closed from another thread than the dispatching one",
                       "the detached abort is taken under %s" % sorted(thread_facts(c)))
+        # a same-thread close must still release the workers: either the finally runs _terminate_and_reset (the detach
+        # flag is raised only on the foreign-thread path), or the inline _abort() already terminates the pool because
+        # every abort_everything() terminates unconditionally.  Only "neither" leaks the pool (and its old size).
+        det_foreign_only = all(bool(thread_facts(c) & foreign) and not (thread_facts(c) & same) for c in det)
+        uncond = True
+        for q_ in ("PoolManagerMixin.abort_everything", "LokyBackend.abort_everything"):
+            ae_ = ctx.repo.func(BK, q_)
+            gae = cfg_of(ae_)
+            tm = [x for x in calls_in(ae_) if call_name(x) in ("self.terminate", "self._workers.terminate")]
+            if not tm or not gae.every_path_from([gae.entry], gae.nodes_of_all(tm), None, skip_exc=True):
+                uncond = False
+        if det_foreign_only:
+            ctx.ok(det[0] if det else h, "the detach flag is raised only on the foreign-thread path: a same-thread close runs _terminate_and_reset in the finally")
+        elif uncond:
+            ctx.ok(det[0], "the detach flag is also raised on a same-thread close, but the inline _abort() terminates the pool (every abort_everything terminates unconditionally)")
+        else:
+            ctx.bad(det[0] if det else h, "on a same-thread close the finally skips _terminate_and_reset (detach flag raised under %s) and abort_everything does not terminate the pool unconditionally either: "
+                    "the pool of an abandoned generator stays alive, keeps starting queued batches, and is reused at its old size by the next call" % sorted(thread_facts(det[0]) if det else []),
+                    key=PAR + "::Parallel._get_outputs::same-thread close releases the workers")
         ctx.check(bool(thread_facts(last) & same) and not (thread_facts(last) & foreign), last, "the inline abort and re-raise happen only in the dispatching thread",
                   "the inline abort / re-raise is reached under %s: a close from a foreign thread aborts inline (it can join itself)" % sorted(thread_facts(last)))
         ctx.check(bool(ident) and not any(in_block(a, tr.body) or in_block(a, h.body) for a in ident[:1]), ident[0] if ident else f, "the dispatching thread's id is sampled when the generator starts")
